@@ -20,14 +20,46 @@ class C08S(SchedProp):
     drv = 'C08S'
     props_modules = ['CylcModel.Props.C08Sched']
     theorems = [
+        'CylcModel.C08S.child_inherits',
+        'CylcModel.C08S.children_inherit',
+        'CylcModel.C08S.children_inherit_pooled',
+        'CylcModel.C08S.child_loop_flows_grow',
+        'CylcModel.C08S.merge_union',
+        'CylcModel.C08S.fUnion_is_union',
+        'CylcModel.C08S.merge_same_noop',
+        'CylcModel.C08S.spawn_in_given_flows',
+        'CylcModel.C08S.no_rerun_in_flow',
+        'CylcModel.C08S.flow_invariant_all_runs',
+        'CylcModel.C08S.new_flow_is_fresh',
+        'CylcModel.C08S.command_flows_registered',
     ]
-    statement_note = 'TODO'
+    statement_note = (
+        'partial: proofs over the Sched3Set model (scheduler core + flows + `cylc set`) for all instance graphs and all '
+        'states. PROVED: child_inherits - in the child loop of spawn_on_output (parent = pooled proxy or transient object of '
+        '`cylc set`) a child that is in the pool after its turn carries every flow number of the parent; a child that was '
+        'not in the pool carries exactly the parent\'s flows; an existing instance keeps its own flows too (union); later '
+        'children of the loop only add flow numbers and pooled instances stay pooled (children_inherit, '
+        'children_inherit_pooled, child_loop_flows_grow). merge_union - merge_flows(x, f) leaves at x\'s key a proxy with '
+        'exactly x.flows U f and every other pooled proxy untouched; merging nothing / the same flows is a no-op. '
+        'spawn_in_given_flows - spawn_task (incl. the recursive spawning for finished tasks whose flow wait ends) leaves the '
+        'pooled proxies alone, and every proxy it adds or returns has exactly the flows given. no_rerun_in_flow - spawn_task '
+        'returns no proxy when the DB history of the instance in the given flows ends in a final status and the outputs '
+        'recorded for these flows satisfy the completion condition. RUN INVARIANT, proved primitive by primitive and lifted '
+        'over all op lists (flow_invariant_all_runs): in every state of every run (any graph; main loops, submit results, '
+        'messages, hold / stop / pause commands, `cylc set` with any --flow option, restarts) every flow number carried by a '
+        'pooled proxy or transient object is in the workflow_flows table, known flows are in the table, every number of the '
+        'table is <= the counter or a known flow; hence (new_flow_is_fresh) the number --flow=new gets is carried by no '
+        'proxy and is not in the table - the scheduler-level half of C08\'s last sentence, restarts included. NOT PROVED '
+        'as theorems: that every output completion reaches spawn_on_output in a whole run, and that suicide removal / '
+        'remove_if_complete after the child loop keep the children\'s flows (removal only); that database ROWS carry only '
+        'registered numbers (the invariant covers proxies, not rows); these are checked by the judge on every real trace (child-lacks-parent-flow, flows-shrank, '
+        'flow-from-nowhere, rerun-in-flow, flow-number-reused) and tied by the correspondence.')
     technique = C29.technique
     trusted = C29.trusted
     unmodelled = C29.unmodelled
     rule = C29.rule
     kinds = ('set', 'setany')
-    n_quick = 64
+    n_quick = 48
     n_thorough = 720
 
     def translate(self):
@@ -37,7 +69,14 @@ class C08S(SchedProp):
         return _s3set.corpus_cases()
 
     def impl_batch(self, inputs):
-        return _s3set.retry_flakes(sprop.run_workers, inputs, sprop.run_workers(inputs, self.workers))
+        return _s3set.retry_flakes(sprop.run_workers, inputs, _s3set.run_robust(sprop.run_workers, inputs, self.workers))
+
+    def equal(self, model_out, obs):
+        # a run in which the real scheduler raised the exception of a recorded finding (datastore-graph-depth) has no
+        # model counterpart: it is judged (KNOWN-FINDING), not compared; any other exception is a disagreement
+        if isinstance(obs, dict) and 'crash' in obs:
+            return 'graph_depth' in obs['crash']
+        return super().equal(model_out, obs)
 
     classify = C29.classify
 
